@@ -955,7 +955,21 @@ def _chunks(n, parts):
     return [(lo, min(lo + step, n)) for lo in range(0, n, step)]
 
 
+def deductive(check, tier):
+    """the one sequential piece of the statement that a contract can carry: the byte accounting of Input._send.find_key (every buffered
+    byte is consumed exactly once and in order, or the buffer is empty, or nothing is recognised - contracts/findkey.py).  Queues,
+    clocks, select and threads stay with the bounded histories."""
+    import contracts.findkey as FK
+    import props.C03 as C03
+    from pyvc.verify import verify
+    FK.find_key.probe = C03.find_key_probe
+    verify(FK.find_key, tier, check, prefix="C08")
+    check.assume("deductive sub-result: Input._send.find_key's byte accounting for every buffer (the decoder as an uninterpreted function "
+                 "of the bytes taken so far and `full`); everything else of C08 (queues, time, select, threads) is bounded only")
+
+
 def run(check, tier, seed):
+    deductive(check, tier)
     # (1) exhaustive small histories
     n_small = sum(1 for _ in small_cases(tier))
     maxlen = 4 if tier == "thorough" else 3
